@@ -428,3 +428,7 @@ package analysis
 //@ func NewBasicKind
 //@   props C12
 //@   ensures !result2 ==> result1 == 0
+
+//@ func StructField.IsSQLGuard
+//@   props C05 C08
+//@   ensures result1 == st.Tag.Get("gomacro-sql-guard") && (result2 <==> st.Tag.Get("gomacro-sql-guard") != "")
